@@ -563,6 +563,10 @@ func (q *qCtx) checkPop(t *Trace, name string, checkClose bool) {
 			allEmpty = false
 		}
 	}
+	if allEmpty && k.closedKnown && k.closed {
+		fail(-1, "the queue was found closed and empty, but the error returned is not the closed error ("+c.short(err.Key())+"): consumers that drain with PopAnyway and test for the closed error never see the end of the queue")
+		return
+	}
 	if allEmpty {
 		c.holds(rule, name, t.Entry.Pos(), "defensive error path: all Front() nil")
 		return
